@@ -37,9 +37,10 @@ BOUNDS = {
              "1-qutrit), 13 single + 36 2-qubit + 252 3-qubit + 16 2-qutrit composite measurement-process names, all in every "
              "listed object_name form; 30 named-basis calls, 20 generate_composite_system calls, legacy constructors on 2 bases, "
              "testers, about 16000 outside names. NOT exhaustive stratum: 2-qutrit gate names every 13th of the 39204 (3016 "
-             "names, all three gate forms) + every 9th single-base name (22 names) also in the four effective-Lindbladian forms",
-    "thorough": "as quick, with ALL 39204 2-qutrit gate names in all three gate forms (effective-Lindbladian forms and mirror "
-                "on the 198 single-base names and every 97th two-base name = 601 names) and the 343 3-qubit tester states",
+             "names, the three gate forms called directly) + every 9th single-base name (22 names) also through both dispatchers and "
+             "in the four effective-Lindbladian forms",
+    "thorough": "as quick, with ALL 39204 2-qutrit gate names in all three gate forms (dispatcher routes, effective-Lindbladian "
+                "forms and mirror on the 198 single-base names and every 97th two-base name = 601 names) and the 343 3-qubit tester states",
 }
 EXHAUSTIVE = {"quick": False, "thorough": True}
 CASE_TIMEOUT = 900
